@@ -222,6 +222,15 @@ Theorem C13_holds_in_racy_histories : forall x o x' e, xstep x (Base o) = Ok (x'
 Proof. exact xstep_base_fields. Qed.
 Print Assumptions C13_holds_in_racy_histories.
 
+(* ... and so does the headline theorem: over the x-machine, for EVERY history - racy or not - the
+   callbacks run ++ queued are those prescribed for its Base steps ([xtrace],
+   Properties_C01.C01_xtrace_def; the X micro-steps queue no callback and emit no event) *)
+Theorem C13_callbacks_xtrace : forall mark wc hw ops x e,
+  xrun (xinit mark wc hw) ops = Ok (x, e) ->
+  cb_events e ++ cbs (pending (xbase x)) = flat_map cb_due (xtrace (xinit mark wc hw) ops).
+Proof. exact xcallbacks_trace. Qed.
+Print Assumptions C13_callbacks_xtrace.
+
 (* ========================================================================================== *)
 (* Source: the tests of the current TcpConnection.cc                                            *)
 (* ========================================================================================== *)
